@@ -106,6 +106,12 @@ func (c *memConn) Take() []byte {
 func (c *memConn) Close() error {
 	c.mu.Lock()
 	c.closed = true
+	if c.readerParked {
+		// the reader is about to wake up and run the end of the connection loop: it counts as running from now on,
+		// so that a Quiesce after Close really waits for it (it still calls into the dispatcher once, with EOF)
+		c.readerParked = false
+		verifrt.Unpark(c.tok)
+	}
 	c.cond.Broadcast()
 	c.mu.Unlock()
 	return nil
@@ -349,6 +355,17 @@ func (in *Instance) Call(f func() error) (err error, panicked string, hang bool)
 		in.deadWhy = "panic"
 	}
 	return err, panicked, false
+}
+
+// TakeAll drains what every connection except `except` has received.
+func (in *Instance) TakeAll(except int) [][]byte {
+	out := make([][]byte, len(in.conns))
+	for i, c := range in.conns {
+		if i != except {
+			out[i] = c.Take()
+		}
+	}
+	return out
 }
 
 func (in *Instance) connNames() map[*net.Conn]string {
